@@ -45,7 +45,9 @@ class TriangularLattice(AbstractLattice):
                 ids = np.roll(idx, s, axis=d)
                 if self.pbc[d]:
                     for (i, j) in zip(idx.reshape(-1), ids.reshape(-1)):
-                        adj[i, j] = 1
+                        # an axis of extent 1 wraps onto the site itself: not a neighbor
+                        if i != j:
+                            adj[i, j] = 1
                 else:
                     # single out axis `d`
                     seld = (math.prod(self.shape[:d]), self.shape[d], math.prod(self.shape[d+1:]))
@@ -68,7 +70,9 @@ class TriangularLattice(AbstractLattice):
                 ids = np.roll(ids, s, axis=1)
                 if self.pbc[d]:
                     for (i, j) in zip(idx.reshape(-1), ids.reshape(-1)):
-                        adj[i, j] = 1
+                        # an axis of extent 1 wraps onto the site itself: not a neighbor
+                        if i != j:
+                            adj[i, j] = 1
                 else:
                     if self.pbc[d+1]:
                         seld = (math.prod(self.shape[:d]), self.shape[d], math.prod(self.shape[d+1:]))
